@@ -332,14 +332,16 @@ impl Rasn {
 
 fn parse_rust_derive_annotation(input: &str) -> nom::IResult<&str, Vec<&str>> {
     use nom::{
-        bytes::complete::tag,
-        character::complete::{alphanumeric1, char, multispace0},
+        bytes::complete::{tag, take_while1},
+        character::complete::{char, multispace0},
+        combinator::{all_consuming, recognize},
         multi::{many0, separated_list1},
         sequence::delimited,
         Parser as _,
     };
 
-    delimited(
+    // the whole string is one `#[derive(..)]` attribute: paths (`serde::Serialize`), an optional trailing comma
+    all_consuming(delimited(
         (
             multispace0,
             char('#'),
@@ -351,9 +353,22 @@ fn parse_rust_derive_annotation(input: &str) -> nom::IResult<&str, Vec<&str>> {
             char('('),
             multispace0,
         ),
-        separated_list1(many0((multispace0, char(','), multispace0)), alphanumeric1),
-        (multispace0, char(')'), multispace0, char(']')),
-    )
+        separated_list1(
+            many0((multispace0, char(','), multispace0)),
+            recognize(separated_list1(
+                tag("::"),
+                take_while1(|c: char| c.is_alphanumeric() || c == '_'),
+            )),
+        ),
+        (
+            many0((multispace0, char(','))),
+            multispace0,
+            char(')'),
+            multispace0,
+            char(']'),
+            multispace0,
+        ),
+    ))
     .parse(input)
 }
 
